@@ -42,19 +42,19 @@ func (w *writeInPlaceHandlerImpl) CreateTempFile() (tempFile *os.File, err error
 	if err != nil {
 		return nil, err
 	}
+	// owner first, then mode: a chown clears the setuid / setgid bits
+	if err := verifPoint("chown_temp"); err != nil {
+		return nil, err
+	}
+	if err = changeOwner(info, file); err != nil {
+		return nil, err
+	}
 	if err := verifPoint("chmod_temp"); err != nil {
 		return nil, err
 	}
 	err = os.Chmod(file.Name(), info.Mode())
 
 	if err != nil {
-		return nil, err
-	}
-
-	if err := verifPoint("chown_temp"); err != nil {
-		return nil, err
-	}
-	if err = changeOwner(info, file); err != nil {
 		return nil, err
 	}
 	log.Debug("WriteInPlaceHandler: writing to tempfile: %v", file.Name())
